@@ -72,7 +72,7 @@ package omap
 //@
 // Iterators. An Iter is a tree and a cursor into it; iterOK says the cursor (when there is one) is a path from the
 // root of that tree with stree's ordering invariant ordPath, which is what makes "next" a statement about the whole
-// key set. Seek (range over InorderAfter with a break) has no contract: bounded stand-in only.
+// key set. Seek ranges over the function returned by stree's InorderAfter and stops at the first key.
 //@ pred iterOK(it *Iter[T, U]) := it != nil && (it.m != nil ==> treeInvRO(it.m))
 //@+     && (it.c != nil ==> it.m != nil && pathOK(it.c) && ordPath(it.c.path, it.m.compare) && (len(it.c.path) > 0 ==> it.c.path[0] == it.m.root))
 //@ spec itValid(it *Iter[T, U]) bool := it.c != nil && len(it.c.path) != 0
@@ -123,3 +123,21 @@ package omap
 //@   requires [C04] iterOK(it)
 //@   ensures  [C04] valid: itValid(it) ==> itRank(it) in it.m.elems && result == it.m.vals[itRank(it)].Value
 //@   ensures  [C04] invalid: !itValid(it) ==> result == zero
+//@
+//@ func (*Iter).Seek
+//@   requires [C04] iterOK(it) && (it.m != nil ==> treeInv(it.m) && keyOnly(it.m))
+//@   ensures  [C04] same: result == it && iterOK(it) && it.m == old(it.m)
+//@   ensures  [C04] zeromap: it.m == nil ==> !itValid(it)
+//@   ensures  [C04] found: itValid(it) ==> forall kv stree.KV[T, U] :: {rank(it.m.compare, kv)} kv.Key == key ==> itRank(it) in it.m.elems && itRank(it) >= rank(it.m.compare, kv) && (forall k int :: {k in it.m.elems} k in it.m.elems && k >= rank(it.m.compare, kv) ==> k >= itRank(it))
+//@   ensures  [C04] none: it.m != nil && !itValid(it) ==> forall kv stree.KV[T, U] :: {rank(it.m.compare, kv)} kv.Key == key ==> (forall k int :: {k in it.m.elems} k in it.m.elems ==> k < rank(it.m.compare, kv))
+//@   modifies it.c
+//@   loop 1: invariant [C04] before: it1 == 0 ==> it.c == nil
+//@   loop 1: invariant [C04] after: it1 > 0 ==> it1 == 1 && !yret1[0] && it.c != nil && fresh(it.c) && len(it.c.path) > 0 && pathOK(it.c) && ordPath(it.c.path, it.m.compare) && it.c.path[0] == it.m.root && itRank(it) == rank(it.m.compare, yarg1[0])
+//@   loop 1: invariant [C04] frame: it.m == old(it.m) && it.m != nil && treeInv(it.m) && treeInvRO(it.m)
+//@
+//@ func (Map).Seek
+//@   requires [C04] mapInv(m)
+//@   ensures  [C04] inv: result != nil && fresh(result) && iterOK(result) && result.m == m.m
+//@   ensures  [C04] zeromap: m.m == nil ==> !itValid(result)
+//@   ensures  [C04] found: itValid(result) ==> forall kv stree.KV[T, U] :: {rank(m.m.compare, kv)} kv.Key == key ==> itRank(result) in m.m.elems && itRank(result) >= rank(m.m.compare, kv) && (forall k int :: {k in m.m.elems} k in m.m.elems && k >= rank(m.m.compare, kv) ==> k >= itRank(result))
+//@   ensures  [C04] none: m.m != nil && !itValid(result) ==> forall kv stree.KV[T, U] :: {rank(m.m.compare, kv)} kv.Key == key ==> (forall k int :: {k in m.m.elems} k in m.m.elems ==> k < rank(m.m.compare, kv))
